@@ -1,6 +1,8 @@
 """C08 - source terms: sign, support, scaling; bulk rates integrate the spectral rates; batching."""
 from __future__ import annotations
 
+import warnings
+
 import numpy as np
 
 from ..core import guarded
@@ -237,6 +239,27 @@ def judge(ctx, c):
             fin = np.isfinite(want)
             ctx.close("C08.imbalance==gen+diss-dEdt", np.asarray(im0.values)[fin], want[fin],
                       atol=1e-12 * float(np.max(np.abs(want[fin]), initial=0)), rtol=1e-10, case=wit, key="C08:imbalance")
+    # ---- the same numbers stored as float32 (compressed files): rates are float64 fields of the same values
+    if dis_name != "romero" and c.get("check_default"):
+        from ocean_science_utilities.wavespectra.spectrum import create_2d_spectrum
+        Ei = np.round(E / max(float(E.max()), 1e-300) * 2000.0)
+        s_f = wl.build(c, Ei)
+        okr, r_f = guarded(ctx, "C08.no-exception", lambda: b.dissipation.rate(s_f), wit, key="C08:exception:dissipation.rate")
+        for dtp in ("float32",):  # (integer-typed densities are not a realistic input and are left out)
+            with warnings.catch_warnings():
+                warnings.simplefilter("ignore")
+                s_t = create_2d_spectrum(np.asarray(c["freq"], float), np.asarray(c["dir"], float), Ei.astype(dtp),
+                                         np.arange(n) * 3600, np.zeros(n), np.zeros(n), depth=np.asarray(c["depth"], float))
+            okt, r_t = guarded(ctx, "C08.no-exception", lambda: (b.dissipation.rate(s_t), b.dissipation.bulk_rate(s_t)), wit,
+                               key="C08:exception:dissipation.rate")
+            if okr and okt:
+                ctx.count("C08.spectra_stored_as_" + dtp)
+                a_, b_ = np.asarray(r_f.values, float), np.asarray(r_t[0].values, float)
+                sc_ = float(np.max(np.abs(a_), initial=0))
+                ctx.close("C08.dissipation.bulk==integral(rate)", b_, a_, atol=1e-10 * sc_ + 1e-300, rtol=1e-9, case=wit,
+                          key="C08:dissipation:dtype:" + dtp)
+                ctx.close("C08.dissipation.bulk==integral(rate)", np.asarray(r_t[1].values, float), np.sum(b_ * area[None], axis=(1, 2)),
+                          atol=1e-300, rtol=1e-9, case=wit, key="C08:dissipation:bulk:dtype:" + dtp)
     # ---- the same balance object and the same spectrum object after update_parameters() (the calibration loop's
     #      pattern): the imbalance must be generation + dissipation - dE/dt of terms carrying the NEW parameters
     if itype == "u10" and c.get("upd") and dis_name == "st4":
